@@ -73,7 +73,7 @@ def register(reg):
     def rely(it, st, old):
         eng = it.eng
         for r in owned(st):
-            o = lambda k, sort=IntS: z3.Select(old.get(k, eng.initial_array(k, sort)), r)  # noqa: E731
+            o = lambda k, sort=IntS: z3.Select(eng.old_arr(old, k, sort), r)  # noqa: E731
             n = lambda k, sort=IntS: z3.Select(eng.heap_arr(st, k, sort), r)  # noqa: E731
             eng.assume(st, z3.Or(n("H11._state") == o("H11._state"), n("H11._state") == CLOSED))
             eng.assume(st, n("H11._request_count") == o("H11._request_count"))
